@@ -9,7 +9,7 @@ ID = 'C09'
 RUNS = {'quick': 1200, 'thorough': 50000}
 WALL_CAP = {'quick': 70, 'thorough': 1800}
 BLOCK = 10
-RULE = ('runs = the bundled builders SIM, SIMEX1, PC (use_book_exogenous=False) and the hand-coded ModelSIMiterative, '
+RULE = ('runs = the bundled builders SIM, SIMEX1, PC (use_book_exogenous=False, or the default True with the paths of the run restated afterwards) and the hand-coded ModelSIMiterative, '
         'driven with seeded propensities, tax rates, portfolio parameters (on and off the 4-decimal grid, separate '
         'populations), G_k and r_k paths with 0-3 jumps at seeded periods, consistent initial stocks, horizon <= 12, '
         'solved by the real library at tolerance 1e-12; oracle = the Godley-Lavoie recursions evaluated in closed form '
@@ -54,6 +54,8 @@ def generate(seed, tier):
     G, nj = gpath(rng, T, 5.0, 60.0, 1)
     case = {'kind': 'ECON', 'which': which, 'on_grid': on_grid, 'T': T, 'alpha1': a1, 'alpha2': a2, 'theta': th,
             'G': G, 'jumps': nj, 'V0': 0.0, 'YD0': 0.0}
+    if which != 'ITER' and S['swarm'].random() < 0.2:
+        case['book_exo'] = True
     if rng.random() < 0.6:
         case['V0'] = round(rng.uniform(5, 150), 2)
     if which == 'SIMEX1' and rng.random() < 0.7:
@@ -71,7 +73,7 @@ def generate(seed, tier):
         case['YD0'] = round(rng.uniform(5, 60), 2) if rng.random() < 0.5 else 0.0
         if case['B0'] and case['V0'] and case['YD0'] and rng.random() < 0.4:
             # no initial condition on bill holdings: the k=0 value follows from the portfolio equation
-            case['derive_B0'] = True
+            case['derive_B0'] = not case.get('book_exo', False)
             case['B0'] = case['V0'] * (case['l0'] + case['l1'] * r[0]) - case['l2'] * case['YD0']
     if which == 'ITER':
         case['V0'] = 80.0 if rng.random() < 0.5 else case['V0']
@@ -179,7 +181,9 @@ def run_builder(c, tol=1e-12):
     import sfc_models.gl_book.chapter3 as ch3
     import sfc_models.gl_book.chapter4 as ch4
     cls = {'SIM': ch3.SIM, 'SIMEX1': ch3.SIMEX1, 'PC': ch4.PC}[c['which']]
-    b = cls('C1', use_book_exogenous=False)
+    # book_exo: the builder is left in its default configuration (it defines the book's own spending / interest-rate
+    # paths) and the paths of this run are stated afterwards on the same sector objects: the later statement counts
+    b = cls('C1', use_book_exogenous=bool(c.get('book_exo', False)))
     model = b.build_model()
     ctry = b.Country
     hh = ctry['HH']
@@ -189,17 +193,18 @@ def run_builder(c, tol=1e-12):
     tf.TaxRate = c['theta']
     gov = ctry['TRE'] if c['which'] == 'PC' else ctry['GOV']
     gov.SetExogenous('DEM_GOOD', list(c['G']))
-    if c['V0']:
+    book = bool(c.get('book_exo', False))     # then the builder also stated the book's initial conditions: restate all
+    if c['V0'] or (book and c['which'] == 'PC'):
         hh.AddInitialCondition('F', c['V0'])
         gov.AddInitialCondition('F', -c['V0'])
-    if c['which'] in ('SIMEX1', 'PC') and (c.get('YD0') or c['V0']):
+    if c['which'] in ('SIMEX1', 'PC') and (c.get('YD0') or c['V0'] or book):
         hh.AddInitialCondition('AfterTax', c.get('YD0', 0.0))
     if c['which'] == 'PC':
         hh.SetEquationRightHandSide('L0', repr(c['l0']))
         hh.SetEquationRightHandSide('L1', repr(c['l1']))
         hh.SetEquationRightHandSide('L2', repr(c['l2']))
         ctry['DEP'].SetExogenous('r', list(c['r']))
-        if (c['B0'] or c['V0']) and not c.get('derive_B0'):
+        if ((c['B0'] or c['V0']) and not c.get('derive_B0')) or book:
             hh.AddInitialCondition('DEM_DEP', c['B0'])
     model.MaxTime = c['T']
     model.EquationSolver.ParameterErrorTolerance = tol
@@ -284,6 +289,8 @@ def execute(case):
         stats['probes']['path_with_jumps'] = 1
     if case['V0']:
         stats['probes']['initial_stocks'] = 1
+    if case.get('book_exo'):
+        stats['probes']['paths_restated_over_builder_defaults'] = 1
     sig = core.digest([case['which'], case['on_grid'], case['T'], case['jumps'], bool(case['V0']), bool(case.get('YD0')),
                        [i for i in range(1, len(case['G'])) if case['G'][i] != case['G'][i - 1]]])
     return {'violations': viol, 'stats': stats, 'sig': sig, 'digest': core.digest([case['which'], got]), 'nontrivial': True}
